@@ -174,40 +174,112 @@ example :
 def castVals (l : Lit) (dt : Option DType) : Except Err (List SVal) :=
   mapE (fun s => npCast s ((keyDType l dt).getD .bool)) l.elems
 
-/-- The cache entry created by promoting `0.0` (FLOAT, `+0.0`). -/
-def zeroEntry : Entry :=
-  ⟨.s (.f false 0 1), some .float, .scalar (.f false 0 1) (some .float), .float, [.f false 0 1 false]⟩
-
-/-- **cache_sound (full statement), refuted — finding D10.**  "Whatever was promoted before, the initializer
-returned for `(value, dtype)` holds the tensor of `value`" is false: after promoting `0.0`, promoting `-0.0`
-returns the initializer holding `+0.0` (Python `0.0 == -0.0`, equal hashes). -/
-theorem cache_sound_full_refuted :
-    ¬ (∀ (reqs : List (Lit × Option DType)) (l : Lit) (dt : Option DType) (c' : Cache) (e : Entry),
-        promote (promoteAll [] reqs) l dt = .ok (c', e) → Except.ok e.vals = castVals l dt) := by
-  intro h
-  have := h [(.s (.f false 0 1), none)] (.s (.f true 0 1)) none [zeroEntry] zeroEntry (by decide)
-  revert this; decide
-
-/-- **cache_sound_partial.**  For every cache whose entries hold the tensors of their own keys (`CacheOk`, an
-invariant: it holds for the empty cache and is re-established here), every promotion `(l, dt)` of a literal
-without negative zero (`l.SI` — the hypothesis D10 forces), with positive denominators (`l.WF`) and inside
-the model's determined conversions (`LitModelled`): the initializer returned — whether freshly created or
-found under a key that is merely `==`/hash-equal (`True`/`1`/`1.0`, `[1, 2]`/`[1.0, 2.0]`) — holds exactly the
-tensor `l` denotes in that dtype (element-wise equal numbers, equal signs, equal rounding path; or the
-promotion is refused).  So distinct literals share a tensor only when their cast values are equal. -/
-theorem cache_sound_partial (c : Cache) (hc : CacheOk c) (l : Lit) (dt : Option DType) (c' : Cache) (e : Entry)
-    (h : promote c l dt = .ok (c', e))
-    (hl : l.WF ∧ l.SI ∧ LitModelled l ((keyDType l dt).getD .bool)) :
+/-- **cache_sound (full).**  For the cache as it is since fix F8 (key `(repr(value), dtype)`): for every cache whose
+entries hold the tensors of their own keys (`CacheOk`, an invariant: true of the empty cache and re-established
+here), *every* promotion `(l, dt)` — negative zeros included — is answered with an initializer holding exactly
+the tensor `l` denotes in that dtype (element-wise the same number with the same sign and rounding path), or is
+refused.  Hence two literals share a tensor only if their cast values are equal.  The only hypothesis, `l.WF`
+(denominators of the rational encoding of floats are positive), is about the encoding, not about Python values. -/
+theorem cache_sound (c : Cache) (hc : CacheOk c) (l : Lit) (dt : Option DType) (c' : Cache) (e : Entry)
+    (h : promote c l dt = .ok (c', e)) (hl : l.WF) :
     valsEqv (.ok e.vals) (castVals l dt) ∧ CacheOk c' := by
-  unfold promote at h
+  unfold promote promoteBy at h
   by_cases ha : builderAccepts l
   · simp only [ha, Bool.not_true, Bool.false_eq_true, if_false] at h
-    cases hf : c.find l (keyDType l dt) with
+    cases hf : c.findBy reprEq l (keyDType l dt) with
     | some e0 =>
       rw [hf] at h
       simp only [Except.ok.injEq, Prod.mk.injEq] at h
       obtain ⟨rfl, rfl⟩ := h
-      unfold Cache.find at hf
+      unfold Cache.findBy at hf
+      have hmem := List.mem_of_find?_eq_some hf
+      have hp := List.find?_some hf
+      simp only [Bool.and_eq_true, beq_iff_eq] at hp
+      obtain ⟨h1, h2, h3⟩ := hc e0 hmem
+      have hd : e0.dtype = (keyDType l dt).getD .bool := by rw [h2, hp.2]
+      refine ⟨?_, hc⟩
+      have := reprEq_cast_same e0.key l ((keyDType l dt).getD .bool) h3 hl hp.1
+      rw [← hd, h1] at this
+      rw [hd] at this
+      exact this
+    | none =>
+      rw [hf] at h
+      cases hm : mapE (fun e => npCast e ((keyDType l dt).getD .bool)) l.elems with
+      | error err => simp [hm] at h
+      | ok vs =>
+        simp only [hm, Except.ok.injEq, Prod.mk.injEq] at h
+        obtain ⟨rfl, rfl⟩ := h
+        refine ⟨?_, ?_⟩
+        · unfold castVals; rw [hm]; exact valsEqv_refl vs
+        · intro e he
+          rcases List.mem_append.mp he with he | he
+          · exact hc e he
+          · simp only [List.mem_singleton] at he
+            subst he
+            exact ⟨hm, rfl, hl⟩
+  · simp [ha] at h
+
+/-- Non-vacuity of `cache_sound`: the empty cache is `CacheOk`, `-0.0` is well formed, and after promoting `0.0` the
+promotion of `-0.0` creates its own initializer holding `-0.0`; `True`, `1`, `1.0` under INT64 are three keys. -/
+example : CacheOk [] ∧ (Lit.s (.f true 0 1)).WF := by
+  refine ⟨?_, ?_⟩
+  · intro e he; cases he
+  intro e he
+  simp only [Lit.elems, List.mem_singleton] at he; subst he
+  simp [Scalar.WF, Scalar.norm]
+
+example :
+    (promoteAll [] [(.s (.f false 0 1), none), (.s (.f true 0 1), none)]).map (fun e => (e.name, e.vals))
+      = [(.scalar (.f false 0 1) (some .float), [.f false 0 1 false]),
+         (.scalar (.f true 0 1) (some .float), [.f true 0 1 false])] := by decide
+
+example :
+    ((promoteAll [] [(.s (.i 1), some .int64), (.s (.b true), some .int64), (.s (.f false 1 1), some .int64),
+      (.s (.i 1), some .int64)]).map (·.name)).length = 3 := by decide
+
+/-- **cache_names_unique.**  After any sequence of promotions (including refused and failing ones) the
+initializers created by the cache carry pairwise distinct names (`const_<value>_<dtype>` / `const_1d_<n>`):
+distinct `(repr, dtype)` keys never generate the same name. -/
+theorem cache_names_unique (reqs : List (Lit × Option DType)) :
+    ((promoteAll [] reqs).map (·.name)).Nodup :=
+  (namesOk_promoteAllBy reprEq reprEq_refl_s reqs [] ⟨List.nodup_nil, by simp, by simp⟩).1
+
+/-! ### The cache before fix F8 (commit 610a39a) — kept for the record; no tie to the current code -/
+
+/-- The cache entry the pre-fix code created for `0.0` (FLOAT, `+0.0`). -/
+def zeroEntry : Entry :=
+  ⟨.s (.f false 0 1), some .float, .scalar (.f false 0 1) (some .float), .float, [.f false 0 1 false]⟩
+
+/-- **cache_sound for the pre-fix key `(value, dtype)` under Python `==`, refuted — finding D10 (fixed).**  After
+promoting `0.0`, promoting `-0.0` returned the initializer holding `+0.0` (`0.0 == -0.0`, equal hashes). -/
+theorem cache_sound_prefix_refuted :
+    ¬ (∀ (reqs : List (Lit × Option DType)) (l : Lit) (dt : Option DType) (c' : Cache) (e : Entry),
+        promotePre (promoteAllPre [] reqs) l dt = .ok (c', e) → Except.ok e.vals = castVals l dt) := by
+  intro h
+  have := h [(.s (.f false 0 1), none)] (.s (.f true 0 1)) none [zeroEntry] zeroEntry (by decide)
+  revert this; decide
+
+/-- The same witness is answered correctly by the current code. -/
+example : ∃ c' e, promote (promoteAll [] [(.s (.f false 0 1), none)]) (.s (.f true 0 1)) none = .ok (c', e)
+    ∧ Except.ok e.vals = castVals (.s (.f true 0 1)) none := by
+  refine ⟨_, _, rfl, ?_⟩
+  decide
+
+/-- What the pre-fix cache did guarantee: soundness for literals without negative zero (`l.SI`), including hits on
+merely `==`-equal keys (`True`/`1`/`1.0`). -/
+theorem cache_sound_prefix_partial (c : Cache) (hc : CacheOkPre c) (l : Lit) (dt : Option DType) (c' : Cache)
+    (e : Entry) (h : promotePre c l dt = .ok (c', e))
+    (hl : l.WF ∧ l.SI ∧ LitModelled l ((keyDType l dt).getD .bool)) :
+    valsEqv (.ok e.vals) (castVals l dt) ∧ CacheOkPre c' := by
+  unfold promotePre promoteBy at h
+  by_cases ha : builderAccepts l
+  · simp only [ha, Bool.not_true, Bool.false_eq_true, if_false] at h
+    cases hf : c.findBy pyEq l (keyDType l dt) with
+    | some e0 =>
+      rw [hf] at h
+      simp only [Except.ok.injEq, Prod.mk.injEq] at h
+      obtain ⟨rfl, rfl⟩ := h
+      unfold Cache.findBy at hf
       have hmem := List.mem_of_find?_eq_some hf
       have hp := List.find?_some hf
       simp only [Bool.and_eq_true, beq_iff_eq] at hp
@@ -234,31 +306,5 @@ theorem cache_sound_partial (c : Cache) (hc : CacheOk c) (l : Lit) (dt : Option 
             subst he
             exact ⟨hm, rfl, hl.1, hl.2.1, hl.2.2⟩
   · simp [ha] at h
-
-
-/-- **cache_names_unique.**  After any sequence of promotions (including refused and failing ones) the
-initializers created by the cache carry pairwise distinct names (`const_<value>_<dtype>` / `const_1d_<n>`). -/
-theorem cache_names_unique (reqs : List (Lit × Option DType)) :
-    ((promoteAll [] reqs).map (·.name)).Nodup :=
-  (namesOk_promoteAll reqs [] ⟨List.nodup_nil, by simp, by simp⟩).1
-
-/-- Non-vacuity / illustration: `1`, `True`, `1.0` under INT64 are one key and one tensor `[1]` (sound sharing),
-and the literal `1` satisfies the hypotheses of `cache_sound_partial`. -/
-example :
-    (promoteAll [] [(.s (.i 1), some .int64), (.s (.b true), some .int64), (.s (.f false 1 1), some .int64)]).map
-      (fun e => (e.name, e.vals)) = [(.scalar (.i 1) (some .int64), [.i 1])] := by decide
-
-example : CacheOk [] ∧ (Lit.s (.i 1)).WF ∧ (Lit.s (.i 1)).SI ∧ LitModelled (.s (.i 1)) .int64 := by
-  refine ⟨?_, ?_, ?_, ?_⟩
-  · intro e he; cases he
-  · intro e he
-    simp only [Lit.elems, List.mem_singleton] at he; subst he
-    simp [Scalar.WF, Scalar.norm]
-  · intro e he
-    simp only [Lit.elems, List.mem_singleton] at he; subst he
-    intro h; simp [Scalar.norm] at h
-  · intro e he
-    simp only [Lit.elems, List.mem_singleton] at he; subst he
-    simp [Modelled, npCast, DType.cls, DType.inRange, DType.lo, DType.card]
 
 end OV.Props.C12
